@@ -762,9 +762,9 @@ func (d *Decoder) decodeArrayToSlice(rv reflect.Value, additional []byte) error 
 	slice := rv
 	switch slice.Kind() {
 	case reflect.Slice:
-		// Set slice to the correct length
-		slice.Grow(int(length))
-		slice.SetLen(int(length))
+		// The declared length is not trusted: start small, grow while decoding
+		slice.SetLen(0)
+		slice.Grow(min(int(length), 1024))
 
 	case reflect.Array:
 		// Check array is long enough and clear extra elements
@@ -777,8 +777,13 @@ func (d *Decoder) decodeArrayToSlice(rv reflect.Value, additional []byte) error 
 		}
 
 	case reflect.Interface:
-		slice.Set(reflect.MakeSlice(slice.Elem().Type(), int(length), int(length)))
-		slice = slice.Elem()
+		// Decode into an addressable slice of the same type, then set the interface
+		tmp := reflect.New(slice.Elem().Type()).Elem()
+		if err := d.decodeArrayToSlice(tmp, additional); err != nil {
+			return err
+		}
+		slice.Set(tmp)
+		return nil
 
 	default:
 		return fmt.Errorf("%w: expected a slice type",
@@ -788,6 +793,18 @@ func (d *Decoder) decodeArrayToSlice(rv reflect.Value, additional []byte) error 
 	// Decode each item into the correctly sized slice
 	itemType := slice.Type().Elem()
 	for i := range int(length) {
+		if slice.Kind() == reflect.Slice {
+			// Decode in place (slice elements are addressable)
+			if i == slice.Cap() {
+				slice.Grow(min(int(length)-i, i)) // double, up to the declared length
+			}
+			slice.SetLen(i + 1)
+			slice.Index(i).SetZero()
+			if err := d.Decode(slice.Index(i).Addr().Interface()); err != nil {
+				return fmt.Errorf("error decoding array item %d: %w", i, err)
+			}
+			continue
+		}
 		newVal := reflect.New(itemType)
 		if err := d.Decode(newVal.Interface()); err != nil {
 			return fmt.Errorf("error decoding array item %d: %w", i, err)
